@@ -26,8 +26,8 @@ func init() {
 		Doc: "C13/C18/C02: in both value libraries a container value (a value struct holding a slice or map, or a pointer to one) is constructed only around storage created for it (make / literal / a local slice or map filled by append or indexed stores), never around the storage owned by another value (a field of the receiver or of a parameter). Two values sharing one map or slice are aliases: a mutation through one (any-object `set`, list `push`) changes the other behind the type checker's back — a typed object cast to `{ ? }` and written through the any-object view afterwards holds a value of another type in a typed field, which is a Go panic at the next use (host crash in both engines). `keys()`-like members must hand out fresh lists for the same reason."})
 	register(&Rule{ID: "R-member-effects", Floor: 6, Run: ruleMemberEffects,
 		Doc: "C18/C04/C13: value methods have by-value receivers; a builtin member that mutates (push, pop, insert, remove, concat, sort, set …) must write through the pointer / map the copies share (`*self.Values = …`, `self.FieldsInternal[k] = …`), never to a field of the receiver copy (the write is lost: the member silently does nothing, aliases do not observe it). For every member both twins implement, the set of receiver storage fields written — and how — is the same in the VM library and in the interpreter library."})
-	register(&Rule{ID: "R-iter-snapshot", Floor: 5, Run: ruleIterSnapshot,
-		Doc: "C04/C01/C13: iterable values keep their cursor in a pointer field shared by every copy of the value. (a) Each loop must own its cursor: wherever an engine creates an iterator, either the value's IntoIter allocates a fresh cursor or the engine iterates over a fresh clone; otherwise two loops over one value (nested `for` over the same list, or a `break` leaving the cursor mid-way) interfere: the inner loop advances and resets the outer loop's cursor — skipped elements and a loop that never ends. (b) For kinds with mutating members the two engines must iterate over the same thing: both over a snapshot (clone before IntoIter) or both over the live value; otherwise `for x in l { l.push(x) }` runs len(l) times in one engine and until a limit in the other."})
+	register(&Rule{ID: "R-iter-snapshot", Floor: 8, Run: ruleIterSnapshot,
+		Doc: "C04/C01/C13: iterable values keep their cursor in a pointer field shared by every copy of the value. (a) Each loop must own its cursor: wherever an engine creates an iterator, either the value's IntoIter allocates a fresh cursor or the engine iterates over a fresh clone; otherwise two loops over one value (nested `for` over the same list, or a `break` leaving the cursor mid-way) interfere: the inner loop advances and resets the outer loop's cursor — skipped elements and a loop that never ends. (b) For kinds with mutating members the two engines must iterate over the same thing: both over a snapshot (clone before IntoIter) or both over the live value; otherwise `for x in l { l.push(x) }` runs len(l) times in one engine and until a limit in the other. (c) Clone() of an iterable value must give the copy freshly allocated cursor field(s) (through the constructor, a literal with `&local`, or by re-pointing them after a struct copy) on every return: (a) relies on `clone before IntoIter`, and a clone that shares the cursor pointer with the original does not own its cursor."})
 }
 
 // ---------------------------------------------------------------------------
@@ -1057,6 +1057,22 @@ func ruleIterSnapshot(c *Ctx) []Obligation {
 			obs = append(obs, o)
 		}
 	}
+	// ---- (a') Clone gives the copy its own cursor: the "iterate over a clone" argument rests on it
+	for _, l := range libs {
+		for _, im := range l.impls {
+			it := im.methods["IntoIter"]
+			if it == nil || im.methods["Clone"] == nil || (len(it.Body.List) == 1 && IsPanicCall(l.info, it.Body.List[0])) {
+				continue
+			}
+			cursor := r2tCursorFields(l, im)
+			if len(cursor) == 0 {
+				continue
+			}
+			o := Obligation{Key: fmt.Sprintf("iter|%s|%s|clone has its own cursor", l.tag, im.Name()), Pos: c.Pos(im.methods["Clone"].Pos()), Nontrivial: true}
+			o.Status, o.Detail = r2tCloneCursor(l, im, cursor)
+			obs = append(obs, o)
+		}
+	}
 	// ---- (b) twins iterate over the same thing (mutable kinds)
 	inBy := map[string]*r2tIterImpl{}
 	for _, it := range r2tIterImpls(in) {
@@ -1096,4 +1112,299 @@ func ruleIterSnapshot(c *Ctx) []Obligation {
 		obs = append(obs, o)
 	}
 	return obs
+}
+
+// ---------------------------------------------------------------------------
+// Clone() of an iterable value gives the copy its own cursor
+// ---------------------------------------------------------------------------
+
+// r2tCursorFields: pointer fields of an iterable value that the iterator methods write through:
+// the methods IntoIter hands out (bound to whatever value) and the receiver methods they call.
+func r2tCursorFields(l *mbLib, im *mbImpl) map[string]bool {
+	out := map[string]bool{}
+	for f := range l.iterStateFields(im) {
+		out[f] = true
+	}
+	root := im.methods["IntoIter"]
+	if root == nil {
+		return out
+	}
+	seen := map[string]bool{}
+	var visit func(name string)
+	visit = func(name string) {
+		fd := im.methods[name]
+		if fd == nil || seen[name] {
+			return
+		}
+		seen[name] = true
+		recv := mbRecvObj(l.info, fd)
+		ast.Inspect(fd.Body, func(n ast.Node) bool {
+			switch x := n.(type) {
+			case *ast.SelectorExpr:
+				if r2tObj(l.info, x.X) == recv && recv != nil {
+					if _, isM := im.methods[x.Sel.Name]; isM {
+						visit(x.Sel.Name)
+					}
+				}
+			case *ast.AssignStmt:
+				for _, lh := range x.Lhs {
+					if f := r2tDerefField(l.info, lh, recv); f != "" {
+						out[f] = true
+					}
+				}
+			case *ast.IncDecStmt:
+				if f := r2tDerefField(l.info, x.X, recv); f != "" {
+					out[f] = true
+				}
+			}
+			return true
+		})
+	}
+	ast.Inspect(root.Body, func(n ast.Node) bool {
+		if sel, ok := n.(*ast.SelectorExpr); ok {
+			if sl := l.info.Selections[sel]; sl != nil && sl.Kind() == types.MethodVal {
+				if im2 := l.implOfType(sl.Recv()); im2 == im && sel.Sel.Name != "IntoIter" {
+					visit(sel.Sel.Name)
+				}
+			}
+		}
+		return true
+	})
+	// only fields that are pointers to scalars are cursors (not the element storage)
+	for f := range out {
+		keep := false
+		for i := 0; i < im.st.NumFields(); i++ {
+			if im.st.Field(i).Name() == f {
+				if p, ok := im.st.Field(i).Type().Underlying().(*types.Pointer); ok {
+					if _, isBasic := p.Elem().Underlying().(*types.Basic); isBasic {
+						keep = true
+					}
+				}
+			}
+		}
+		if !keep {
+			delete(out, f)
+		}
+	}
+	return out
+}
+
+// r2tDerefField: lhs is `*recv.F` → F.
+func r2tDerefField(info *types.Info, lhs ast.Expr, recv types.Object) string {
+	st, ok := ast.Unparen(lhs).(*ast.StarExpr)
+	if !ok || recv == nil {
+		return ""
+	}
+	sel, ok := ast.Unparen(st.X).(*ast.SelectorExpr)
+	if !ok || r2tObj(info, sel.X) != recv {
+		return ""
+	}
+	return sel.Sel.Name
+}
+
+// r2tFreshPointer: e is `&local` (local declared inside scope, not a parameter/receiver) or new(T).
+func r2tFreshPointer(info *types.Info, scope *ast.FuncDecl, e ast.Expr) (bool, string) {
+	e = ast.Unparen(e)
+	if call, ok := e.(*ast.CallExpr); ok && r2tIsBuiltin(info, call, "new") {
+		return true, "new(…)"
+	}
+	if u, ok := e.(*ast.UnaryExpr); ok && u.Op == token.AND {
+		if o, ok := r2tObj(info, u.X).(*types.Var); ok && o != nil && !o.IsField() {
+			inBody := scope.Body.Pos() <= o.Pos() && o.Pos() <= scope.Body.End()
+			if inBody {
+				return true, "&" + o.Name() + " (a local of " + scope.Name.Name + ")"
+			}
+			// a by-value parameter is a fresh variable of this call, too
+			if scope.Type.Params != nil && scope.Type.Params.Pos() <= o.Pos() && o.Pos() <= scope.Type.Params.End() {
+				if _, isPtr := o.Type().Underlying().(*types.Pointer); !isPtr {
+					return true, "&" + o.Name() + " (a by-value parameter of " + scope.Name.Name + ")"
+				}
+			}
+		}
+	}
+	return false, exprStr(e)
+}
+
+// r2tCtorFreshCursor: the constructor builds the value with freshly allocated cursor fields.
+func r2tCtorFreshCursor(l *mbLib, fn *types.Func, im *mbImpl, cursor map[string]bool, depth int) (bool, string) {
+	fd := l.decls[fn]
+	if fd == nil || depth > 2 {
+		return false, "constructor " + fn.Name() + " has no visible body"
+	}
+	var lits []*ast.CompositeLit
+	var inner *types.Func
+	ast.Inspect(fd.Body, func(n ast.Node) bool {
+		switch x := n.(type) {
+		case *ast.CompositeLit:
+			if l.implOfType(l.info.TypeOf(x)) == im {
+				lits = append(lits, x)
+			}
+		case *ast.CallExpr:
+			if f := CalleeOf(l.info, x); f != nil && f != fn && l.ctorOf(f) != nil && l.ctorOf(f).impl == im {
+				inner = f
+			}
+		}
+		return true
+	})
+	if len(lits) == 0 && inner != nil {
+		return r2tCtorFreshCursor(l, inner, im, cursor, depth+1)
+	}
+	if len(lits) != 1 {
+		return false, fmt.Sprintf("%d %s literals in %s", len(lits), im.Name(), fn.Name())
+	}
+	var notes []string
+	for _, f := range mbSortedKeys(cursor) {
+		found := false
+		for _, el := range lits[0].Elts {
+			kv, ok := el.(*ast.KeyValueExpr)
+			if !ok {
+				return false, "positional literal in " + fn.Name()
+			}
+			if id, ok := kv.Key.(*ast.Ident); ok && id.Name == f {
+				found = true
+				ok, why := r2tFreshPointer(l.info, fd, kv.Value)
+				if !ok {
+					return false, fmt.Sprintf("%s sets %s to %s, which is not a fresh pointer", fn.Name(), f, why)
+				}
+				notes = append(notes, f+" = "+why)
+			}
+		}
+		if !found {
+			return false, fn.Name() + " leaves " + f + " nil"
+		}
+	}
+	return true, fn.Name() + " allocates " + strings.Join(notes, ", ")
+}
+
+// r2tCloneCursor decides, for one Clone method, whether every returned value has fresh cursor fields.
+func r2tCloneCursor(l *mbLib, im *mbImpl, cursor map[string]bool) (Status, string) {
+	fd := im.methods["Clone"]
+	info := l.info
+	recv := mbRecvObj(info, fd)
+	var rets []*ast.ReturnStmt
+	ast.Inspect(fd.Body, func(n ast.Node) bool {
+		if _, ok := n.(*ast.FuncLit); ok {
+			return false
+		}
+		if r, ok := n.(*ast.ReturnStmt); ok && len(r.Results) == 1 {
+			rets = append(rets, r)
+		}
+		return true
+	})
+	if len(rets) == 0 {
+		return Undecided, "Clone has no single-value return"
+	}
+	// top-level (unconditional) statements of Clone
+	topLevel := map[ast.Stmt]bool{}
+	for _, s := range fd.Body.List {
+		topLevel[s] = true
+	}
+	var good []string
+	for _, r := range rets {
+		e := r.Results[0]
+		var copyVar types.Object // local that is a struct copy of the receiver
+		ok, why := false, ""
+		for depth := 0; depth < 6; depth++ {
+			e = ast.Unparen(e)
+			if u, isU := e.(*ast.UnaryExpr); isU && u.Op == token.AND {
+				e = u.X
+				continue
+			}
+			if st, isS := e.(*ast.StarExpr); isS {
+				e = st.X
+				continue
+			}
+			if call, isC := e.(*ast.CallExpr); isC {
+				if tv, isT := info.Types[call.Fun]; isT && tv.IsType() && len(call.Args) == 1 {
+					e = call.Args[0] // conversion Value(x)
+					continue
+				}
+				if sel, isSel := ast.Unparen(call.Fun).(*ast.SelectorExpr); isSel && sel.Sel.Name == "Clone" {
+					return Undecided, "Clone delegates to another Clone: " + exprStr(call)
+				}
+				fn := CalleeOf(info, call)
+				if fn != nil && l.ctorOf(fn) != nil {
+					ok, why = r2tCtorFreshCursor(l, fn, im, cursor, 0)
+					if !ok {
+						return Violated, "Clone returns " + exprStr(call) + " but " + why
+					}
+					break
+				}
+				return Undecided, "Clone returns the result of " + exprStr(call.Fun)
+			}
+			if cl, isL := e.(*ast.CompositeLit); isL {
+				if l.implOfType(info.TypeOf(cl)) != im {
+					return Undecided, "Clone returns a literal of another type"
+				}
+				for _, f := range mbSortedKeys(cursor) {
+					set := false
+					for _, el := range cl.Elts {
+						if kv, isKV := el.(*ast.KeyValueExpr); isKV {
+							if id, isID := kv.Key.(*ast.Ident); isID && id.Name == f {
+								set = true
+								fresh, w := r2tFreshPointer(info, fd, kv.Value)
+								if !fresh {
+									return Violated, fmt.Sprintf("Clone builds the copy with %s: %s — the cursor pointer is not fresh (the copy and the original advance and reset one cursor)", f, w)
+								}
+								why += f + " = " + w + " "
+							}
+						}
+					}
+					if !set {
+						return Undecided, "Clone builds a literal without " + f
+					}
+				}
+				ok = true
+				break
+			}
+			if id, isI := e.(*ast.Ident); isI {
+				o := r2tObj(info, id)
+				if o == recv && recv != nil {
+					if copyVar == nil {
+						return Violated, fmt.Sprintf("Clone returns a struct copy of the receiver: the pointer field(s) %s are copied, so the clone and the original share one cursor", strings.Join(mbSortedKeys(cursor), ","))
+					}
+					// copyVar := self; every cursor field must be re-pointed unconditionally before the return
+					for _, f := range mbSortedKeys(cursor) {
+						fresh := false
+						ast.Inspect(fd.Body, func(n ast.Node) bool {
+							as, isAs := n.(*ast.AssignStmt)
+							if !isAs || !topLevel[as] || as.Pos() > r.Pos() {
+								return true
+							}
+							for i, lh := range as.Lhs {
+								sel, isSel := ast.Unparen(lh).(*ast.SelectorExpr)
+								if isSel && sel.Sel.Name == f && r2tObj(info, sel.X) == copyVar && len(as.Rhs) == len(as.Lhs) {
+									if fr, _ := r2tFreshPointer(info, fd, as.Rhs[i]); fr {
+										fresh = true
+									}
+								}
+							}
+							return true
+						})
+						if !fresh {
+							return Violated, fmt.Sprintf("Clone copies the receiver struct (`%s := %s`) and never gives the copy a fresh %s: the clone and the original share one cursor, so a loop over the clone advances and resets the cursor of the value it was cloned from (nested loops over one value interfere; a constant cloned for every execution keeps a half-consumed cursor)", copyVar.Name(), recv.Name(), f)
+						}
+						why += copyVar.Name() + "." + f + " re-pointed "
+					}
+					ok = true
+					break
+				}
+				def := r2tSingleDef(info, fd, id)
+				if def == nil {
+					return Undecided, "Clone returns " + id.Name + ", which has no single definition"
+				}
+				if r2tObj(info, ast.Unparen(def)) == recv && recv != nil {
+					copyVar = o
+				}
+				e = def
+				continue
+			}
+			return Undecided, "Clone returns " + exprStr(e)
+		}
+		if !ok {
+			return Undecided, "cannot resolve what Clone returns: " + exprStr(r.Results[0])
+		}
+		good = append(good, strings.TrimSpace(why))
+	}
+	return Discharged, "every value Clone returns has fresh cursor field(s): " + strings.Join(good, "; ")
 }
